@@ -131,8 +131,8 @@ def stepCore (d : DState) (line : String) : DState × String :=
     else
       match toks with
       | ["close"] => ({ d with isOpen := false }, "ok")
-      | ["restart"] | ["restart", "lazy"] =>
-        let s := d.store.apply (.restart (toks.length == 2))
+      | "restart" :: rest =>
+        let s := d.store.apply (.restart (rest.contains "lazy"))
         ({ d with store := s, born := s.blobs.map (fun b => (b.id, d.now)) }, "ok")
       | "replayfrom" :: rest =>
         -- the directory is replaced by the one the pinned release wrote for the same history (C17)
@@ -218,8 +218,7 @@ def fsOps (toks : List String) (out : String) : List Fs.FsOp :=
   | ["free"] => [.free]
   | ["settle"] => [.settle]
   | ["fsync"] => [.fsync]
-  | ["restart"] => [.restart false]
-  | ["restart", "lazy"] => [.restart true]
+  | "restart" :: rest => [.restart (rest.contains "lazy")]
   | "flipsweep" :: _ => [.restart false]
   | "toolsweep" :: _ => [.restart false]
   | "dmgsweep" :: rest => [.restart (rest.contains "lazy")]
@@ -230,6 +229,10 @@ def fsOps (toks : List String) (out : String) : List Fs.FsOp :=
   | _ => []
 
 def step (d : DState) (line : String) : DState × String :=
+  let toks0 := (line.trimAscii.toString.splitOn " ").filter (fun t => t ≠ "")
+  -- `cancel <k> <op...>`: the model runs the operation to completion; when the implementation really dropped the
+  -- future the judge stops comparing with the model (the Spec oracle accepts "entirely or not at all")
+  let line := if toks0.head? == some "cancel" then " ".intercalate (toks0.drop 2) else line
   let toks := (line.trimAscii.toString.splitOn " ").filter (fun t => !t.startsWith "@" && t ≠ "")
   match toks with
   | "trace" :: _ =>
